@@ -13,7 +13,10 @@ RULE = ("generated FLAT declarations over Int, Bits and Data (constant/field/exp
         "subset of fields fixed to the target's values, the rest Any() (Data also Any(startswith/contains/endswith) cut from the "
         "target's value) x a corpus (the target's encoding, encodings of re-drawn trees that keep the fixed fields, one fixed field "
         "changed, truncations, random strings); oracle: as_regular_expression() returns; filter(p, corpus, True) yields the same "
-        "packets, in order and by value, as filter(p, corpus, False); the regexp matches the target's encoding. Non-trivial = "
+        "packets, in order and by value, as filter(p, corpus, False); the regexp matches the target's encoding. Plus an ENUMERATED "
+        "stratum per shard: one byte of Bits fields (8 x Bits(1): every Any-subset over the shards; 1-3 further compositions by seed) "
+        "+ Int(1), fixed byte P over the metacharacters and their |0x80 variants (thorough: all 256), corpus = all 256 values of the "
+        "byte: each member of the derived character class / range is tested. Non-trivial = "
         ">=1 Any and >=1 fixed field, and (a Data whose size field/expression operand is Any, or a partially fixed bit byte, or a "
         "fixed value containing a metacharacter); distinct = (source, fixed subset, target encoding)")
 ASSUMPTIONS = ["byte strings ended by a regex delimiter that is not kept in the value are excluded (by the property); read-to-end too",
